@@ -178,7 +178,13 @@ pub fn judge(db: &Db, c: &QCase) -> CaseReport {
         let _ = crate::runner::guarded(pre, || pre.parse::<anything::Compound>().is_ok());
         classes.push("after-a-failing-evaluation");
     }
-    let rs = match run(db, &c.query) {
+    // one case in eight is evaluated with the describe option on: an option that concerns looked-up
+    // constants must not change how anything else is evaluated
+    let described = h % 8 == 1;
+    if described {
+        classes.push("evaluated-with-descriptions-on");
+    }
+    let rs = match if described { crate::tool::run_full(db, &c.query, true).map(|r| r.results) } else { run(db, &c.query) } {
         Ok(r) => r,
         Err(p) => {
             return CaseReport::fail(&c.query, format!("panic:{}", panic_site(&p)), json!({"query": c.query, "panic": p}));
